@@ -7,6 +7,8 @@ package main
 
 import (
 	"fmt"
+	"hash/fnv"
+	"runtime"
 	"strings"
 	"time"
 
@@ -594,6 +596,17 @@ func execParse(cs *Sx) (res string) {
 	if _, fresh := cs.field("fresh"); fresh {
 		p = parser.New()
 	}
+	// three routes to the same grammar, chosen by the text itself (so that a replay takes
+	// the same one): the Parser value, the package-level FromString… functions, the Must
+	// parser (whose panic on a syntax error is the documented way it reports one)
+	h := fnv.New32a()
+	h.Write([]byte(text))
+	switch h.Sum32() % 3 {
+	case 1:
+		p = fromStringParser{}
+	case 2:
+		p = mustAdapter{p.Must()}
+	}
 	var fs []biscuit.Fact
 	var rs []biscuit.Rule
 	var cks []biscuit.Check
@@ -646,6 +659,89 @@ func execParse(cs *Sx) (res string) {
 	}
 	return out
 }
+
+// fromStringParser: the package-level entry points (with and without parameters).
+type fromStringParser struct{}
+
+func (fromStringParser) Fact(s string, ps parser.ParametersMap) (biscuit.Fact, error) {
+	if len(ps) == 0 {
+		return parser.FromStringFact(s)
+	}
+	return parser.FromStringFactWithParams(s, ps)
+}
+func (fromStringParser) Rule(s string, ps parser.ParametersMap) (biscuit.Rule, error) {
+	if len(ps) == 0 {
+		return parser.FromStringRule(s)
+	}
+	return parser.FromStringRuleWithParams(s, ps)
+}
+func (fromStringParser) Check(s string, ps parser.ParametersMap) (biscuit.Check, error) {
+	if len(ps) == 0 {
+		return parser.FromStringCheck(s)
+	}
+	return parser.FromStringCheckWithParams(s, ps)
+}
+func (fromStringParser) Policy(s string, ps parser.ParametersMap) (biscuit.Policy, error) {
+	if len(ps) == 0 {
+		return parser.FromStringPolicy(s)
+	}
+	return parser.FromStringPolicyWithParams(s, ps)
+}
+func (fromStringParser) Block(s string, ps parser.ParametersMap) (biscuit.ParsedBlock, error) {
+	if len(ps) == 0 {
+		return parser.FromStringBlock(s)
+	}
+	return parser.FromStringBlockWithParams(s, ps)
+}
+func (fromStringParser) Authorizer(s string, ps parser.ParametersMap) (biscuit.ParsedAuthorizer, error) {
+	if len(ps) == 0 {
+		return parser.FromStringAuthorizer(s)
+	}
+	return parser.FromStringAuthorizerWithParams(s, ps)
+}
+func (fromStringParser) Must() parser.MustParser { return parser.New().Must() }
+
+// mustAdapter turns the Must parser's panic(err) back into an error; any other panic value
+// is re-raised (and reported as a panic of the parse function).
+type mustAdapter struct{ m parser.MustParser }
+
+func mustCall[T any](f func() T) (v T, err error) {
+	defer func() {
+		if r := recover(); r != nil {
+			if e, ok := r.(error); ok && !isRuntimeError(e) {
+				err = e
+				return
+			}
+			panic(r)
+		}
+	}()
+	return f(), nil
+}
+
+func isRuntimeError(e error) bool {
+	_, ok := e.(runtime.Error)
+	return ok
+}
+
+func (a mustAdapter) Fact(s string, ps parser.ParametersMap) (biscuit.Fact, error) {
+	return mustCall(func() biscuit.Fact { return a.m.Fact(s, ps) })
+}
+func (a mustAdapter) Rule(s string, ps parser.ParametersMap) (biscuit.Rule, error) {
+	return mustCall(func() biscuit.Rule { return a.m.Rule(s, ps) })
+}
+func (a mustAdapter) Check(s string, ps parser.ParametersMap) (biscuit.Check, error) {
+	return mustCall(func() biscuit.Check { return a.m.Check(s, ps) })
+}
+func (a mustAdapter) Policy(s string, ps parser.ParametersMap) (biscuit.Policy, error) {
+	return mustCall(func() biscuit.Policy { return a.m.Policy(s, ps) })
+}
+func (a mustAdapter) Block(s string, ps parser.ParametersMap) (biscuit.ParsedBlock, error) {
+	return mustCall(func() biscuit.ParsedBlock { return a.m.Block(s, ps) })
+}
+func (a mustAdapter) Authorizer(s string, ps parser.ParametersMap) (biscuit.ParsedAuthorizer, error) {
+	return mustCall(func() biscuit.ParsedAuthorizer { return a.m.Authorizer(s, ps) })
+}
+func (a mustAdapter) Must() parser.MustParser { return a.m }
 
 func parseCaseSx(kind, text string, params map[string]Term) string {
 	var ps []string
